@@ -34,6 +34,8 @@ def pself : TPat → List Obl
   | .wild _ => []
   | .lit k ty => [.rel k ty]
   | .tuple ps ty => .same ty (.tuple (ptysOf ps)) :: pselfL ps
+  -- a constructor pattern: its sub-patterns (their tie to the constructor's parameter types is not stated yet)
+  | .constr ps _ => pselfL ps
 def pselfL : List TPat → List Obl
   | [] => []
   | p :: ps => pself p ++ pselfL ps
@@ -45,6 +47,7 @@ def plink : TPat → Ty → Obl
   | .wild ty, vty => .rel ty vty
   | .lit k _, vty => .rel k vty
   | .tuple _ ty, vty => .rel ty vty
+  | .constr _ ty, vty => .rel ty vty
 
 def pobls (p : TPat) (vty : Ty) : List Obl := pself p ++ [plink p vty]
 
@@ -65,6 +68,7 @@ def obls : TExpr → List Obl
   -- method callees and array literals: modelled and tied, not yet given a declarative rule (counted as not covered)
   | .mvar _ _ _ => [.bad]
   | .array items _ => oblsL items ++ [.bad]
+  | .constr _ args _ => oblsL args ++ [.bad]
   | .prim _ => []
   | .tuple items ty => oblsL items ++ [.same ty (.tuple (tysOf items))]
   | .closure ps body ty => boundsOf ps ++ obls body ++ [.same ty (.func (sndL ps) body.ty)]
@@ -170,6 +174,7 @@ mutual
 def binders : TExpr → List (Nat × Ty)
   | .tuple items _ => bindersL items
   | .array items _ => bindersL items
+  | .constr _ args _ => bindersL args
   | .closure ps body _ => ps ++ binders body
   | .letE p _ v => binders v ++ pbinders p
   | .block es _ => bindersL es
@@ -191,6 +196,7 @@ def bindersA : List TArm → List (Nat × Ty)
 def pbinders : TPat → List (Nat × Ty)
   | .var x ty => [(x, ty)]
   | .tuple ps _ => pbindersL ps
+  | .constr ps _ => pbindersL ps
   | _ => []
 def pbindersL : List TPat → List (Nat × Ty)
   | [] => []
